@@ -68,6 +68,10 @@ def run(chk: Check) -> None:
     # of a scheduled callback raises EventError instead of ending the process EXCEPTED (shared with C13)
     from .common import event_guard_accepts_subclasses
     event_guard_accepts_subclasses(chk, 'GUARD-fail-event')
+    # "reported to whoever requested the pause or play": a request that arrived as a message is answered through the reply future of _schedule_rpc -- on every path
+    # through its callback, the one on which the awaited (deferred) pause raises the hook's exception included, that future is resolved exactly once (shared with C20)
+    from .c20 import adapters_deliver_exactly_once
+    adapters_deliver_exactly_once(chk, 'ESC-requester-informed', 'ESC-requester-informed', adapters=[('processes.Process._schedule_rpc.run_callback', 'processes.Process._schedule_rpc')])
     # EXCEPTED must be reachable from every live state, else the failure itself is refused
     prog = chk.prog
     for lbl in common.LIVE:
